@@ -280,7 +280,7 @@ impl Prop for PSem {
                     match rng.below(6) {
                         // actions without output of their own: they still suppress the default -print
                         4 => json!({"k": "exec", "c": *rng.pick(&["true", "false", "exists"])}),
-                        5 if rng.chance(1, 3) => json!({"k": "fls"}),
+                        5 if rng.chance(1, 6) => json!({"k": "fls"}),
                         0 => json!({"k": "print", "delim": 10, "file": file}),
                         1 => json!({"k": "print", "delim": 0, "file": file}),
                         _ => {
@@ -328,7 +328,8 @@ impl Prop for PSem {
                     }
                     9 => json!({"k": "test", "q": {"p": "age", "kind": *rng.pick(&["m", "m", "c"]), "unit": *rng.pick(&["min", "day"]), "form": *rng.pick(&["eq", "gt", "lt"]), "n": *rng.pick(&[0u64, 1, 2, 60])}}),
                     10 => json!({"k": "test", "q": {"p": "newer", "x": *rng.pick(&["m", "m", "c"]), "y": *rng.pick(&["m", "m", "c"]), "ref": 1 + rng.below(n)}}),
-                    11 => json!({"k": "test", "q": {"p": *rng.pick(&["nouser", "nogroup"])}}),
+                    // (described by FindSem, fixed by no listed property: kept rare)
+                    11 if rng.chance(1, 3) => json!({"k": "test", "q": {"p": *rng.pick(&["nouser", "nogroup"])}}),
                     12 => json!({"k": "test", "q": {"p": "links", "form": *rng.pick(&["eq", "gt", "lt"]), "n": *rng.pick(&[1u64, 2, 3])}}),
                     13 => {
                         // a regular expression over the whole path: ".*" + a literal tail, a literal path, or a small random tree
